@@ -40,6 +40,9 @@ def run_shard(shard, tier, seed, wd, res):
         pts = [None, gen, c.neg(gen)] if shard["idx"] == 0 else []
         if shard["idx"] == 0:
             pts += [c.mul(k, gen) for k in range(2, 12)]
+        if shard["idx"] in (0, 1):
+            pp = [P for _, P in G.prefix_points(g)]
+            pts += pp[shard["idx"]::2] + [c.neg(P) for P in pp[shard["idx"]::2]]
         # walk a chain P, P+D, P+2D, ... : cheap in the model (one addition each), still pseudo-random points
         P, D = G.subgroup_point(g, rng), G.subgroup_point(g, rng)
         for _ in range(120):
